@@ -1254,3 +1254,63 @@ CATALOGUE['C03'] = [
     V('silent: escape(v, quote=True)', 'html_quote.py',
       "    return escape(v, 1)", "    return escape(v, quote=True)"),
 ]
+
+# --------------------------------------------------------------------- C19
+CATALOGUE['C19'] = [
+    V('block commands constructed without encoding', 'DT_String.py',
+      "r = scommand(blocks, encoding=encoding)", "r = scommand(blocks)",
+      'C19.R1a'),
+    V('in: join without encoding', 'DT_In.py',
+      "            result = join_unicode(result, encoding=self.encoding)\n\n        finally:\n            if cache:\n                pop()\n            pop()\n\n        return result\n\n    def sort_sequence",
+      "            result = join_unicode(result)\n\n        finally:\n            if cache:\n                pop()\n            pop()\n\n        return result\n\n    def sort_sequence",
+      'C19.R1b'),
+    V('with: render without encoding', 'DT_With.py',
+      "return render_blocks(self.section, md, encoding=self.encoding)",
+      "return render_blocks(self.section, md)", 'C19.R1b'),
+    V('call: top-level render without encoding', 'DT_String.py',
+      """                    result = render_blocks(self._v_blocks, md,
+                                           encoding=encoding)""",
+      """                    result = render_blocks(self._v_blocks, md)""",
+      'C19.R1b'),
+    V('simple form quotes without encoding', '_DocumentTemplate.py',
+      "t = html_quote(t, encoding=encoding)", "t = html_quote(t)",
+      'C19.R1b'),
+    V('render_blocks drops encoding for the join', '_DocumentTemplate.py',
+      "    return join_unicode(rendered, encoding=encoding)",
+      "    return join_unicode(rendered)", 'C19.R1b'),
+    V('tree: recursion drops encoding (the repaired defect)', 'TreeTag.py',
+      """                        colspan, section, md, treeData, level, args,
+                        encoding=encoding)""",
+      """                        colspan, section, md, treeData, level, args)""",
+      'C19.R1b'),
+    V('let: result + suffix', 'DT_Let.py',
+      "            return render_blocks(self.section, md, encoding=self.encoding)",
+      "            return render_blocks(self.section, md, encoding=self.encoding) + ''",
+      'C19.R2'),
+    V('try: + again (the repaired defect)', 'DT_Try.py',
+      """                return join_unicode(
+                    [result, render_blocks(self.elseBlock, md,
+                                           encoding=self.encoding)],
+                    encoding=self.encoding)""",
+      """                return result + render_blocks(self.elseBlock, md,
+                                              encoding=self.encoding)""",
+      'C19.R2'),
+    V('in: str.join of the rendered items', 'DT_In.py',
+      "            result = join_unicode(result, encoding=self.encoding)\n\n        finally:\n            if cache:\n                pop()\n            pop()\n\n        return result\n\n    def sort_sequence",
+      "            result = ''.join(result)\n\n        finally:\n            if cache:\n                pop()\n            pop()\n\n        return result\n\n    def sort_sequence",
+      'C19.R2'),
+    V('tree: str.join again (the repaired defect)', 'TreeTag.py',
+      "    return join_unicode(data, encoding=encoding)",
+      "    return ''.join(data)", 'C19.R2'),
+    V('html_quote ignores its encoding', 'html_quote.py',
+      "        v = v.decode(encoding or 'Latin-1')",
+      "        v = v.decode('Latin-1')", 'C19.R3'),
+    V('join_unicode decodes utf-8 always', '_DocumentTemplate.py',
+      "                rendered[i] = rendered[i].decode(encoding)",
+      "                rendered[i] = rendered[i].decode('utf-8')",
+      'C19.R3'),
+    # silent
+    V('silent: encoding through a local', 'DT_With.py',
+      "            return render_blocks(self.section, md, encoding=self.encoding)",
+      "            enc = self.encoding\n            return render_blocks(self.section, md, encoding=enc)"),
+]
